@@ -133,9 +133,9 @@ def gen_select(rng):
         sql += ' order by ' + ', '.join(k + rng.choice(['', '', ' desc', ' asc', ' nulls last', ' desc nulls first', ' asc nulls first',
                                                         ' desc nulls last']) for k in keys)
     if rng.random() < 0.3:
-        sql += f' limit {rng.randint(1, 3)}'
+        sql += f' limit {rng.choice([0, 1, 1, 2, 3])}'          # (0 is a limit too)
         if rng.random() < 0.4:
-            sql += f' offset {rng.randint(1, 2)}'
+            sql += f' offset {rng.randint(0, 2)}'
     return sql
 
 
@@ -249,7 +249,14 @@ def gen_outside(rng):
     simple CASE, concatenation): judged sqlite-vs-sqlite (original text against rendered text)"""
     ig, t = rng.choice(c08.ALL_TABLES)
     c1, c2, c3 = (rng.choice(COLS) for _ in range(3))
-    k = rng.randrange(15)
+    k = rng.randrange(16)
+    if k == 15:
+        # boundary values of LIMIT / OFFSET at every level (top, derived table, EXISTS, scalar sub-select)
+        l0, o0 = rng.choice([0, 0, 1, 2]), rng.choice(['', '', ' offset 0', ' offset 1'])
+        return rng.choice([f'select * from {ig}.{t} order by {c1}, {c2}, {c3} limit {l0}{o0}',
+                           f'select count(*) as n from (select * from {ig}.{t} limit {l0}{o0}) as s',
+                           f'select {c1} from {ig}.{t} where exists (select 1 from {ig}.{t} limit {l0})',
+                           f'select {c1}, (select count(*) from (select 1 from {ig}.{t} limit {l0}) as z) as n from {ig}.{t}'])
     if k >= 12:
         # operand grouping for every arithmetic operator of the renderer, `%` included: fully parenthesised operands in the original
         def rex(depth=0):
